@@ -694,6 +694,16 @@ def application_module_types(res):
                 mod.mode = mode
                 if via_file:
                     try:
+                        # (both ends of the unit's range go through a file: the reader meets the dependent controller's stored
+                        #  value BEFORE the unit's, as in every file of a type declared the library's way)
+                        for v0 in (lo, hi):
+                            mod.amount = v0
+                            back0 = api.read_sunvox_file(BytesIO(api.Synth(mod).read())).module
+                            res.count("application_module_type_file_roundtrips")
+                            if back0.amount != v0 or back0.mode != mode:
+                                res.violation("C10:encode:application-type:dependent", f"unit {mode.name}: amount = {v0} goes through a file and comes back as {back0.amount} (unit {back0.mode!r})",
+                                              {"family": "application-module-type", "unit": mode.name, "via_file": True})
+                                break
                         mod = api.read_sunvox_file(BytesIO(api.Synth(mod).read())).module
                     except Exception as e:
                         res.violation(f"C10:application-type-raises:{workload_exc(e)}", f"application module type: save/load raised {e!r}", {"family": "application-module-type"})
@@ -722,6 +732,51 @@ def application_module_types(res):
         MODULE_CLASSES.update(originals)
 
 
+def extended_sampler(res):
+    """An application's Sampler subclass that adds controllers (declared after the Sampler's own ones, i.e. after its record
+    fields that are not written as CVALs): they are stored like any other controller - stand-alone, cloned and in a project."""
+    import rv.api as api
+    from rv import controller as rvc
+    from rv.modules import MODULE_CLASSES
+    originals = dict(MODULE_CLASSES)
+    try:
+        try:
+            Kit = type("Sampler", (api.m.Sampler,), {"rvmon_drive": rvc.Controller((0, 256), 0), "rvmon_tilt": rvc.Controller((-64, 64), 0),
+                                                     "__module__": api.m.Sampler.__module__, "__doc__": api.m.Sampler.__doc__})
+        except Exception as e:
+            res.count("extended_sampler_refused")
+            return
+        for v1, v2 in ((256, -64), (1, 64), (77, -1)):
+            m = Kit()
+            m.rvmon_drive, m.rvmon_tilt, m.polyphony = v1, v2, 3
+            case = {"family": "extended-sampler", "values": [v1, v2]}
+            res.case(("extended-sampler", v1, v2))
+            for how in ("synth", "clone", "project"):
+                try:
+                    if how == "synth":
+                        raw = api.Synth(m).read()
+                        back = api.read_sunvox_file(BytesIO(raw)).module
+                    elif how == "clone":
+                        back = m.clone()
+                    else:
+                        p = api.Project()
+                        p.attach_module(Kit(rvmon_drive=v1, rvmon_tilt=v2, polyphony=3))
+                        raw = p.read()
+                        back = api.read_sunvox_file(BytesIO(raw)).modules[1]
+                except Exception as e:
+                    res.violation(f"C10:extended-sampler-raises:{how}:{workload_exc(e)}", f"Sampler subclass with two more controllers, {how}: {e!r}", case)
+                    continue
+                res.count("extended_sampler_roundtrips")
+                got = (getattr(back, "rvmon_drive", None), getattr(back, "rvmon_tilt", None), back.polyphony)
+                if got != (v1, v2, 3):
+                    n_cval = sum(1 for c in __import__("rvmon.iffparse", fromlist=["x"]).parse(raw) if c[0] == b"CVAL") if how != "clone" else None
+                    res.violation(f"C10:encode:extended-sampler:{how}", f"Sampler subclass: added controllers ({v1}, {v2}) and polyphony 3 come back as {got} after the {how} round trip"
+                                                                        f"{'' if n_cval is None else f' ({n_cval} CVAL chunks in the file)'}", case)
+    finally:
+        MODULE_CLASSES.clear()
+        MODULE_CLASSES.update(originals)
+
+
 def workload_exc(e):
     from .. import workload
     return workload.exc_key(e)
@@ -743,6 +798,7 @@ def run_shard(spec_, res):
         sampler_record_histories(res, spec_["tier"])
         subclassed_ranges(res)
         application_module_types(res)
+        extended_sampler(res)
     for T, cname, unit in spec_["tasks"]:
         check_controller(res, T, cname, unit)
         if spec_["tier"] == "thorough" and T != "Output":
